@@ -28,13 +28,14 @@ type Obligation struct {
 	Theory   string
 	Path     int
 	// filled by the discharger
-	Result  string // unsat(sat/unknown/timeout/trivial/error
-	Solver  string
-	TimeMS  int64
-	Model   string
-	SMTSize int
-	query   string
-	Replay  *ReplaySpec
+	Result       string // unsat(sat/unknown/timeout/trivial/error
+	Solver       string
+	TimeMS       int64
+	Model        string
+	SMTSize      int
+	query        string
+	Replay       *ReplaySpec
+	ShortTimeout bool
 }
 
 type Exec struct {
@@ -68,6 +69,7 @@ type Exec struct {
 	bufSrc   map[*Obj]*Obj
 	lazy     map[*Obj]Value
 	conns    map[*Term]*Obj
+	boxed    map[*Term]Value
 	aliasOf  map[*Obj]*Obj
 }
 
@@ -324,6 +326,17 @@ func (x *Exec) globalValue(st *State, o *Obj) Value {
 	var v Value
 	if isErrorT(o.Typ) {
 		v = &IfaceVal{Sym: x.errConst(shortKey(o.Name)), Typ: o.Typ}
+	} else if mt, isMap := under(o.Typ).(*types.Map); isMap && strings.Contains(o.Name, ".") {
+		i := strings.LastIndex(o.Name, ".")
+		if mc, ok := x.globalMapContent(o, mt, o.Name[:i], o.Name[i+1:]); ok {
+			mo := newObj(ObjMap, o.Typ, o.Name, false)
+			x.lazy[mo] = mc
+			v = &MapVal{Obj: mo}
+		} else {
+			tmp := &State{Heap: st.Heap}
+			v = x.freshValue(tmp, o.Typ, "glob."+shortKey(o.Name), true)
+			x.gfacts = append(x.gfacts, tmp.Facts...)
+		}
 	} else {
 		tmp := &State{Heap: st.Heap}
 		v = x.freshValue(tmp, o.Typ, "glob."+shortKey(o.Name), true)
@@ -503,7 +516,7 @@ func (x *Exec) runDefers(st *State, fr *Frame, i int, k cont) {
 func (x *Exec) step(st *State, fr *Frame, in ssa.Instruction) {
 	switch v := in.(type) {
 	case *ssa.Alloc:
-		if at, ok := under(v.Type().(*types.Pointer).Elem()).(*types.Array); ok && !isByte(at.Elem()) {
+		if at, ok := under(v.Type().(*types.Pointer).Elem()).(*types.Array); ok && (!isByte(at.Elem()) || x.arr) {
 			// local array (slice literal backing store, [3]uint32{...}): an array-represented region
 			reg := newObj(ObjRegion, at.Elem(), v.Comment, true)
 			a := Fresh("arr", SArr(SInt, x.elemSort(at.Elem())))
@@ -696,6 +709,7 @@ func (x *Exec) toElem(st *State, v Value, t types.Type) *Term {
 		// a concrete interface value stored into an array (variadic ...interface{} arguments): identity only
 		id := Fresh("boxed", SInt)
 		st.Assume(Ne(id, IntLit(0)))
+		x.boxed[id] = s
 		return id
 	case *PtrVal:
 		id := Fresh("ptr", SInt)
@@ -715,6 +729,9 @@ func (x *Exec) store(st *State, in ssa.Instruction, p *PtrVal, v Value) {
 		b := v.(*Term)
 		if b.S.IsBV() {
 			b = BV2Int(b)
+		}
+		if av.Bytes.Op == "app" && av.Bytes.Name == "zeros" && b.Op == "int" && b.Num.Sign() == 0 {
+			return // storing 0 into a zero block changes nothing
 		}
 		nb := CatN(Take(av.Bytes, p.Idx), U8(b), Drop(av.Bytes, Add(p.Idx, IntLit(1))))
 		st.Heap[p.Obj] = setPath(cur, p.Path, &ArrVal{Typ: av.Typ, Bytes: nb})
@@ -914,6 +931,8 @@ func termBounds(t *Term) (lo, hi *big.Int, ok bool) {
 }
 
 var constBounds = map[*Term][2]*big.Int{}
+
+func boundsOf(lo, hi int64) [2]*big.Int { return [2]*big.Int{big.NewInt(lo), big.NewInt(hi)} }
 
 func (x *Exec) binop(st *State, in ssa.Instruction, o token.Token, a, b Value, xt, rt types.Type) Value {
 	switch o {
@@ -1340,6 +1359,11 @@ func (x *Exec) convert(st *State, in ssa.Instruction, v Value, from, to types.Ty
 				t = BV2Int(t)
 			}
 			return App("float.of", SInt, t)
+		}
+		if t.Op == "app" && t.Name == "float.ceil7n8" {
+			n := t.Args[0]
+			st.Assume(Lt(n, IntLit(4194304))) // range of A-CEIL
+			return Div(Add(Mul(IntLit(7), n), IntLit(7)), IntLit(8))
 		}
 		r := App("float.toint", SInt, t)
 		x.fail("float to int conversion at " + x.posOf(in) + " (not modelled)")
